@@ -151,6 +151,8 @@ class Kernel:
                 return None
             if isinstance(st, ast.Expr) and isinstance(st.value, ast.Constant):
                 continue
+            if isinstance(st, (ast.Pass, ast.Assert, ast.Global, ast.Nonlocal, ast.Import, ast.ImportFrom)):
+                continue
             if isinstance(st, ast.Assign) and len(st.targets) == 1 and isinstance(st.targets[0], ast.Name):
                 try:
                     env = dict(env)
@@ -249,33 +251,90 @@ def leb128_obligations(ctx, rule):
         ctx.error("%s undecided: interval engine cannot follow VarInt._build (%s)" % (rule, e))
 
 
+def _range_iv(node):
+    """Interval of the elements of a literal range(...) call."""
+    if isinstance(node, ast.Call) and isinstance(node.func, ast.Name) and node.func.id == "range" and all(isinstance(a, ast.Constant) and isinstance(a.value, int) for a in node.args):
+        a = [x.value for x in node.args]
+        lo, hi, step = (0, a[0], 1) if len(a) == 1 else (a[0], a[1], 1) if len(a) == 2 else a
+        if step == 1 and hi > lo:
+            return (lo, hi - 1)
+    raise Undecided("not a literal range: %s" % ast.unparse(node))
+
+
+def _enclosing(node, kind):
+    p = getattr(node, "_parent", None)
+    while p is not None and not isinstance(p, kind):
+        p = getattr(p, "_parent", None)
+    return p
+
+
+def _shift_count_iv(fn, name, formula, seen=()):
+    """Interval of local `name` where `formula` uses it: name = X % m (m a constant) gives [0, m-1], narrowed to [1, m-1] when the
+    assignment sits in the else-chain of a test `X % m == 0`; name = c - other is evaluated from other's interval."""
+    if name in seen:
+        raise Undecided("cyclic definition of %s" % name)
+    defs = [st for st in ast.walk(fn) if isinstance(st, ast.Assign) and len(st.targets) == 1 and isinstance(st.targets[0], ast.Name) and st.targets[0].id == name]
+    same = [st for st in defs if _enclosing(st, (ast.If, ast.FunctionDef)) is _enclosing_stmt_block(formula)]
+    defs = same or defs
+    if len(defs) != 1:
+        raise Undecided("%d definitions of shift count %s" % (len(defs), name))
+    v = defs[0].value
+    if isinstance(v, ast.BinOp) and isinstance(v.op, ast.Mod) and isinstance(v.right, ast.Constant) and isinstance(v.right.value, int) and v.right.value > 1:
+        m = v.right.value
+        lo = 0
+        # walk up the if/elif chain: an earlier branch that tests `<same left> % m == 0` excludes zero here
+        node = defs[0]
+        par = getattr(node, "_parent", None)
+        while par is not None and not isinstance(par, ast.FunctionDef):
+            if isinstance(par, ast.If) and node in par.orelse or (isinstance(par, ast.If) and any(node is x for x in par.orelse)):
+                t = par.test
+                if isinstance(t, ast.Compare) and len(t.ops) == 1 and isinstance(t.ops[0], ast.Eq) and isinstance(t.comparators[0], ast.Constant) and t.comparators[0].value == 0 \
+                        and isinstance(t.left, ast.BinOp) and isinstance(t.left.op, ast.Mod) and ast.dump(t.left.left) == ast.dump(v.left) and ast.dump(t.left.right) == ast.dump(v.right):
+                    lo = 1
+            node, par = par, getattr(par, "_parent", None)
+        return (lo, m - 1)
+    if isinstance(v, ast.BinOp) and isinstance(v.op, ast.Sub) and isinstance(v.left, ast.Constant) and isinstance(v.right, ast.Name):
+        o = _shift_count_iv(fn, v.right.id, formula, seen + (name,))
+        return (v.left.value - o[1], v.left.value - o[0])
+    raise Undecided("definition of shift count %s not recognised: %s" % (name, ast.unparse(v)))
+
+
+def _enclosing_stmt_block(node):
+    return _enclosing(node, (ast.If, ast.FunctionDef))
+
+
 def rotation_obligations(ctx, rule):
-    """C15.R5: every element produced by the rotation formulas is a byte."""
+    """C15.R5: every element produced by the rotation formulas is a byte (intervals; names resolved by def-use, not by spelling)."""
     M = ctx.model
-    env = {"amount": (1, 7), "amount1": (1, 7), "amount2": (1, 7), "i": (0, 255), "data[]": (0, 255), "a": (0, 255)}
     try:
         ci = M.cls("ProcessRotateLeft")
         tab = ci.assigns.get("precomputed_single_rotations")
         if not isinstance(tab, ast.DictComp) or not isinstance(tab.value, ast.ListComp):
             raise Undecided("rotation table is not a dict-of-list comprehension")
-        gen = tab.generators[0]
-        ok_range = isinstance(gen.iter, ast.Call) and ast.unparse(gen.iter) == "range(1, 8)" and ast.unparse(tab.value.generators[0].iter) == "range(256)"
+        gen, inner = tab.generators[0], tab.value.generators[0]
+        if not (isinstance(gen.target, ast.Name) and isinstance(inner.target, ast.Name)):
+            raise Undecided("rotation table comprehension targets")
+        env = {gen.target.id: _range_iv(gen.iter), inner.target.id: _range_iv(inner.iter)}
         r = ev(tab.value.elt, env)
-        ctx.ob(rule, "ProcessRotateLeft", ok_range and 0 <= r[0] and r[1] <= 255, "every entry of the single-rotation table is a byte for amounts 1..7 (%s)" % (r,), key="table bytes", loc="%s:%d" % (ci.relpath, tab.lineno))
+        ctx.ob(rule, "ProcessRotateLeft", env[gen.target.id] == (1, 7) and env[inner.target.id] == (0, 255) and 0 <= r[0] and r[1] <= 255,
+               "every entry of the single-rotation table is a byte, for amounts 1..7 and inputs 0..255 (%s)" % (r,), key="table bytes", loc="%s:%d" % (ci.relpath, tab.lineno))
         for meth in ("_parse", "_build"):
             fi = M.method("ProcessRotateLeft", meth)
             n = 0
             for node in ast.walk(fi.node):
                 if isinstance(node, ast.GeneratorExp) and isinstance(node.elt, ast.BinOp) and isinstance(node.elt.op, ast.BitOr):
                     n += 1
+                    env = {}
+                    for x in ast.walk(node.elt):
+                        if isinstance(x, ast.Subscript):
+                            env[ast.unparse(x.value) + "[]"] = (0, 255)       # an element of a byte string
+                    counts = [x.right.id for x in ast.walk(node.elt) if isinstance(x, ast.BinOp) and isinstance(x.op, (ast.LShift, ast.RShift)) and isinstance(x.right, ast.Name)]
+                    for nm in counts:
+                        env[nm] = _shift_count_iv(fi.node, nm, node)
                     r = ev(node.elt, env)
-                    ctx.ob(rule, fi, 0 <= r[0] and r[1] <= 255, "the bit-pair rotation formula of %s yields bytes (%s)" % (meth, r), key="%s formula" % meth, node=node)
+                    ctx.ob(rule, fi, 0 <= r[0] and r[1] <= 255 and all(env[c][0] >= 1 and env[c][1] <= 7 for c in counts),
+                           "the bit-pair rotation formula of %s yields bytes, with shift counts in 1..7 (%s; counts %s)" % (meth, r, {c: env[c] for c in counts}), key="%s formula" % meth, node=node)
             if n == 0:
                 raise Undecided("bit-pair formula not found in %s" % meth)
-            # amount1 in [1,7] on that branch: amount % 8 with the == 0 case handled before
-            src = ast.unparse(fi.node)
-            ok = "amount1 = amount % 8" in src and "amount2 = 8 - amount1" in src and "elif amount % 8 == 0" in src
-            if not ok:
-                raise Undecided("amount1/amount2 derivation not recognised in %s" % meth)
     except Undecided as e:
         ctx.error("%s undecided: interval engine cannot follow the rotation kernels (%s)" % (rule, e))
